@@ -34,8 +34,8 @@ for (p, k), v in sorted(val.items()):
                                     pinned_suite='%d tests pass with the patch; all 145 stable_pass tests still pass' % v['passed'],
                                     commands=['git -C <worktree> apply patch.diff', 'PYTHONPATH=<worktree>/src /venv/bin/python demo.py',
                                               '/verif/tools/baseline.py <worktree>'])))
-    for key in ('caught_by', 'not_caught_reason'):
-        if key in old:
+    for key in old:
+        if key.startswith('caught_by') or key.startswith('analysis_error') or key == 'not_caught_reason':
             meta[key] = old[key]
     json.dump(meta, open(dst + '/meta.json', 'w'), indent=1)
     n += 1
